@@ -4,13 +4,16 @@ the "Type parsers" of `parser.rs` and of the type printer of `format.rs`; lemmas
 `Lemmas/Parse/`). For every input text / every type AST, no bound on sizes or depths.
 
   fuel_suffices, fuel_monotone, fuel_irrelevant     the fuel that ties the recursive knot
+  partial_or_group_factored_eq, factored_eq_fuel, paren_alternatives_eq
+                                                    the left-factored grammar (repair of C18-F1) is
+                                                    the same function as the old alternative order
   parseType_total, parseBaseType_total, typeAlias_total     (T1) totality + progress + located errors
   RoundTripStatement (full), roundtrip_partial             (T2) parse (print t ++ rest) = (t, rest)
   d3_dea6b02_only_rule_breaks_roundtrip                     the dea6b02-only printing rule breaks T2 (D3)
   d1_old_print_rule_breaks_roundtrip                        the pre-dea6b02 printing rule breaks T2
   PrintIdempotentStatement, print_idempotent_partial        (T3)
 -/
-import QuiverModel.Lemmas.Parse.RoundTrip
+import QuiverModel.Lemmas.Parse.Factored
 import QuiverModel.Lemmas.Text.Basic
 namespace C18Types
 open QM.Parse QM.Text
@@ -33,6 +36,31 @@ theorem fuel_irrelevant (i : Str) (n : Nat) (h : i.length < n) : typeDefinition 
   exact fuel_monotone i (i.length + 1) n (by omega) (fuel_suffices i _ (by omega))
 
 example : parseType "'a".toList ≠ .out := fuel_suffices _ _ (Nat.lt_succ_self _)
+
+/-! ## The left-factored grammar (repair of C18-F1) is the same function
+
+`parseTypeF` is the model of the code since /repo 33df1c7: `base_type`, `function_input_type` and
+`function_output_type` give every `(`-headed type to ONE function that parses the field list once
+and decides afterwards. `parseType` is the grammar before the repair. -/
+
+/-- **partial_or_group_factored_eq**: for EVERY input the left-factored parser and the parser with
+    the old order of alternatives (unnamed partial type, then process form / grouping, each parsing
+    the content again) return the same result — value, remainder, error position and code. -/
+theorem partial_or_group_factored_eq (i : Str) : parseTypeF i = parseType i :=
+  (knotF_eq (i.length + 1) i (Nat.lt_succ_self _)).1
+
+/-- the same with any sufficient fuel, for `type_definition` and `base_type` -/
+theorem factored_eq_fuel (n : Nat) (i : Str) (h : i.length < n) :
+    (knotF n).td i = (knot n).td i ∧ (knotF n).bt i = (knot n).bt i := knotF_eq n i h
+
+/-- one level, for ANY inner parsers that reject by the first character as a grammar does
+    (`KHead`, true of every unfolded knot): the patched `base_type` / `function_input_type` ARE
+    the old ones, on every input and whatever the fuel. -/
+theorem paren_alternatives_eq (k : Knot) :
+    baseTypeF k.step = baseTypeWith k.step ∧ functionIoTypeF k.step = functionIoType k.step :=
+  ⟨baseTypeF_eq (KHead.step k), functionIoTypeF_eq (KHead.step k)⟩
+
+theorem parseTypeF_eq : parseTypeF = parseType := funext partial_or_group_factored_eq
 
 /-! ## (T1) totality, progress, located errors -/
 
@@ -102,10 +130,12 @@ theorem typeAlias_total (i : Str) :
         utf8Len pre + utf8Len pos = utf8Len i) := by
   have hsound : Sound typeAlias := by
     unfold typeAlias
+    rw [parseTypeF_eq]
     have := Sound.parseType; have := Sound.typeName; have := Sound.commaWs0
     sound_tac
   have hno : Tot (i.length + 1) typeAlias := by
     unfold typeAlias
+    rw [parseTypeF_eq]
     have := NoOut.tot NoOut.parseType (i.length + 1)
     have := Sound.parseType
     tot_tac
